@@ -38,7 +38,10 @@ def segStep (s : St) : List String → St × String
     match (if h == "-" then some [] else Hex.toBytes? h) with
     | some bs =>
       let r := recvF (fun f => bad.contains f) s.buf bs
-      ({ s with buf := r.1 }, s!"up:{showFrames r.2.1};buf:{Hex.render r.1};raised:{r.2.2}")
+      let g := Gen.SegSrc.runReceiveF (fun f => bad.contains f) s.buf bs
+      let note := if Gen.SegSrc.bufOf g == r.1 && g.up == r.2.1 && g.raised == r.2.2 && g.low == [] && !g.fuelOut then ""
+        else s!";SOURCE-TRANSLATION up:{showFrames g.up};buf:{Hex.render (Gen.SegSrc.bufOf g)};raised:{g.raised}"
+      ({ s with buf := r.1 }, s!"up:{showFrames r.2.1};buf:{Hex.render r.1};raised:{r.2.2}" ++ note)
     | none => (s, "bad-op")
   | ["recvc", cl, h] =>
     -- receive where handling one of the frames `cl` closes the connection re-entrantly
